@@ -131,6 +131,36 @@ Example C16_nonvacuous :
   length (points (R (P (-1) (-1)) (S 3 2))) = 6%nat.
 Proof. unfold rect_ok, point_ok, size_ok, size_nonneg, bound. cbn [tl sz px py sw sh]. repeat split; try reflexivity; lia. Qed.
 
+(* ---- added after the independent audit (round 1) ---- *)
+Theorem C16_resized_width_is_resized : forall r w a,
+  resized_width r w (ax a) = resized r (S w (sh (sz r))) a.
+Proof. exact resized_width_is_resized. Qed.
+
+Theorem C16_resized_height_is_resized : forall r h a,
+  resized_height r h (ay a) = resized r (S (sw (sz r)) h) a.
+Proof. exact resized_height_is_resized. Qed.
+
+(* offset by n >= 0 per axis, zero extents INCLUDED (they grow to 2n around the degenerate centre,
+   starting n-1 before the old position) *)
+Theorem C16_offset_grow_axis : forall r n, rect_ok r -> 0 <= n <= bound ->
+  let o := offset r n in
+  (0 < sw (sz r) -> px (tl o) = px (tl r) - n /\ sw (sz o) = sw (sz r) + 2*n) /\
+  (sw (sz r) = 0 -> 0 < n -> px (tl o) = px (tl r) - (n-1) /\ sw (sz o) = 2*n) /\
+  (0 < sh (sz r) -> py (tl o) = py (tl r) - n /\ sh (sz o) = sh (sz r) + 2*n) /\
+  (sh (sz r) = 0 -> 0 < n -> py (tl o) = py (tl r) - (n-1) /\ sh (sz o) = 2*n).
+Proof. exact offset_grow_axis. Qed.
+
+(* envelope is the smallest rectangle containing both, for rectangles that have points
+   (C16_envelope_smallest is the general form, with zero-sized operands widened to 1x1 as documented) *)
+Theorem C16_envelope_smallest_nonzero : forall a b c, rect_ok a -> rect_ok b ->
+  0 < sw (sz a) -> 0 < sh (sz a) -> 0 < sw (sz b) -> 0 < sh (sz b) ->
+  (forall p, contains a p = true \/ contains b p = true -> contains c p = true) ->
+  forall p, contains (envelope a b) p = true -> contains c p = true.
+Proof. exact envelope_least_nonzero. Qed.
+
+Example C16_offset_zero_extent_example : offset (R (P 10 10) (S 0 3)) 2 = R (P 9 8) (S 4 7).
+Proof. reflexivity. Qed.
+
 Print Assumptions C16_contains_is_top_left_plus_size.
 Print Assumptions C16_bottom_right.
 Print Assumptions C16_intersection_exact.
